@@ -781,7 +781,16 @@ pub async fn acquire_key(base_url: &Uri) -> Result<Key> {
             response.status(),
         )));
     }
-    hyper_client::read_response_body(response).await
+    // the body carries the key value: a body that fails to parse must not be echoed into the error
+    // (it ends up in the status message, the logs and the telemetry events)
+    hyper_client::read_response_body(response)
+        .await
+        .map_err(|_| {
+            Error::Key(KeyErrorType::KeyResponseBody(format!(
+                "{}",
+                KeyAction::Acquire
+            )))
+        })
 }
 
 pub async fn attest_key(base_url: &Uri, key: &Key) -> Result<()> {
